@@ -40,6 +40,10 @@ type exchange struct {
 	Minor      int         `json:"minor"`
 	Status     int         `json:"status"`
 	Reason     string      `json:"reason"`
+	ReasonHex  string      `json:"reason_hex,omitempty"`   // the phrase in hex when it is not printable ASCII (overrides Reason)
+	NoReasonSP bool        `json:"no_reason_sp,omitempty"` // the status line ends after the code: no blank, no phrase
+	CodeBlanks int         `json:"code_blanks,omitempty"`  // extra blanks between the version and the code
+	ReasonKind string      `json:"reason_kind,omitempty"`  // class of the phrase grammar (histogram only)
 	Fields     []rig.Field `json:"fields"` // includes framing fields
 	Framing    string      `json:"framing"` // "cl" | "chunked" | "eof" | "none"
 	BodyHex    string      `json:"body_hex,omitempty"` // decoded (identity) body
@@ -62,6 +66,42 @@ func (x *exchange) body() []byte {
 		return nil
 	}
 	return core.MustUnHex(x.BodyHex)
+}
+
+// reason is the origin's reason phrase as bytes.
+func (x *exchange) reason() string {
+	if x.ReasonHex != "" {
+		return string(core.MustUnHex(x.ReasonHex))
+	}
+	return x.Reason
+}
+
+// startLine is the origin's status line without its CRLF.
+func (x *exchange) startLine() string {
+	l := fmt.Sprintf("HTTP/1.%d %s%d", x.Minor, strings.Repeat(" ", x.CodeBlanks), x.Status)
+	if x.NoReasonSP {
+		return l
+	}
+	return l + " " + x.reason()
+}
+
+// wantStartLine is the status line the property promises the client, stated on the origin's line alone:
+// the same version, code and reason phrase, separated by one blank each. The one normalisation of the
+// phrase (net/http, both writers; c02_status_line_bare_code): a line that ends after the code — no
+// blank, no phrase — is written with the code repeated in the phrase position.
+func (x *exchange) wantStartLine() string {
+	if x.NoReasonSP {
+		return fmt.Sprintf("HTTP/1.%d %d %d", x.Minor, x.Status, x.Status)
+	}
+	return fmt.Sprintf("HTTP/1.%d %d %s", x.Minor, x.Status, x.reason())
+}
+
+// statusLineOf returns the first line of a head without its line terminator.
+func statusLineOf(head []byte) string {
+	if i := bytes.IndexByte(head, '\n'); i >= 0 {
+		head = head[:i]
+	}
+	return strings.TrimSuffix(string(head), "\r")
 }
 
 // wireBody is what the origin puts on the wire after the head.
@@ -87,7 +127,7 @@ func (x *exchange) responseBytes() []byte {
 		}
 		fs = append(fs, f)
 	}
-	out := rig.Head(fmt.Sprintf("HTTP/1.%d %d %s", x.Minor, x.Status, x.Reason), fs)
+	out := rig.Head(x.startLine(), fs)
 	if x.Method == "HEAD" || x.Status == 204 || x.Status == 304 {
 		return out
 	}
@@ -158,7 +198,7 @@ type env struct {
 	proxy  *rig.Proxy
 	origin *rig.Peer
 	ca     *rig.CA
-	reg    sync.Map // id -> *exchange
+	reg    sync.Map // id -> *exchange | *slowCase
 }
 
 func (e *env) close() {
@@ -177,12 +217,20 @@ func (e *env) respond(w *rig.PeerConn, ex *rig.Exchange) bool {
 		w.Write([]byte("HTTP/1.1 200 OK\r\nContent-Length: 2\r\nX-Echo-Id: " + id + "\r\n\r\nok"))
 		return true
 	}
+	if sc, ok := v.(*slowCase); ok {
+		return sc.serve(w)
+	}
 	x := v.(*exchange)
 	rig.WriteSegments(w.Conn, x.responseBytes(), x.Segments)
 	return x.OriginKeep && x.Framing != "eof"
 }
 
 func newEnv(ctx *core.Ctx, mode string, rules []string) (*env, error) {
+	return newEnvTuned(ctx, mode, rules, nil)
+}
+
+// newEnvTuned: tune edits the proxy configuration last (the connection limits of the slow-body cases).
+func newEnvTuned(ctx *core.Ctx, mode string, rules []string, tune func(cfg *forwarder.HTTPProxyConfig)) (*env, error) {
 	e := &env{mode: mode, rules: rules}
 	var err error
 	if e.ca, err = rig.NewCA("verif origin CA"); err != nil {
@@ -230,6 +278,9 @@ func newEnv(ctx *core.Ctx, mode string, rules []string) (*env, error) {
 			if mode == "mitm" {
 				cfg.MITM = forwarder.DefaultMITMConfig()
 				cfg.PromRegistry = prometheus.NewRegistry()
+			}
+			if tune != nil {
+				tune(cfg)
 			}
 		},
 	})
@@ -283,7 +334,7 @@ func askModel(m *core.Model, rules []string, x *exchange) modelResp {
 	}
 	ans := m.MustAsk("RESP", "process", "method="+core.HexS(x.Method), "reqminor="+core.Itoa(x.ReqMinor), "reqclose="+core.B01(x.reqClose()),
 		"gzip="+core.B01(x.solicitedGzip()), "rules="+core.HexList(rules), "minor="+core.Itoa(x.Minor),
-		"status="+core.Itoa(x.Status), "reason="+core.HexS(x.Reason), "fields="+core.JoinList2(fs))
+		"status="+core.Itoa(x.Status), "reason="+core.HexS(x.reason()), "fields="+core.JoinList2(fs))
 	f := strings.Fields(ans)
 	if f[0] == "badgateway" {
 		return modelResp{Kind: "badgateway"}
@@ -301,6 +352,16 @@ func askModel(m *core.Model, rules []string, x *exchange) modelResp {
 		r.Fields[k] = vs
 	}
 	return r
+}
+
+// askStatusLine: the status line (without CRLF) Model/RespStatus.lean's reader and writers produce for the
+// origin's line; ok=false when the reader refuses the line (the transport fails, 502).
+func askStatusLine(m *core.Model, x *exchange) (line string, ok bool) {
+	ans := m.MustAsk("RESP", "statusline", "ho="+core.B01(x.headerOnly()), "line="+core.HexS(x.startLine()))
+	if ans == "bad" {
+		return "", false
+	}
+	return strings.TrimSuffix(string(core.MustUnHex(ans)), "\r\n"), true
 }
 
 // ---- one connection ----
@@ -375,12 +436,13 @@ func (e *env) runConn(ctx *core.Ctx, cc *connCase) {
 	for i, x := range cc.Exchanges {
 		one := oneEx{Kind: "one", Mode: cc.Mode, Rules: cc.Rules, Position: i, Exchange: x}
 		mr := askModel(ctx.Model, cc.Rules, x)
+		mline, mlineOK := askStatusLine(ctx.Model, x)
 		key, _ := json.Marshal(struct {
 			M string
 			R []string
 			X *exchange
 		}{cc.Mode, cc.Rules, &exchange{Method: x.Method, ReqMinor: x.ReqMinor, ReqConn: x.ReqConn, SendAE: x.SendAE, AcceptEnc: x.AcceptEnc,
-			Minor: x.Minor, Status: x.Status, Reason: x.Reason, Fields: x.Fields, Framing: x.Framing, BodyHex: x.BodyHex, Gzip: x.Gzip, ChunkSizes: x.ChunkSizes, Trailers: x.Trailers, OriginKeep: x.OriginKeep}})
+			Minor: x.Minor, Status: x.Status, Reason: x.Reason, ReasonHex: x.ReasonHex, NoReasonSP: x.NoReasonSP, CodeBlanks: x.CodeBlanks, Fields: x.Fields, Framing: x.Framing, BodyHex: x.BodyHex, Gzip: x.Gzip, ChunkSizes: x.ChunkSizes, Trailers: x.Trailers, OriginKeep: x.OriginKeep}})
 		ctx.Case(string(key), x.Framing != "cl" || len(x.Fields) > 3 || x.Status != 200)
 		ctx.Count("mode/" + cc.Mode)
 		ctx.Count("framing/" + x.Framing)
@@ -394,6 +456,9 @@ func (e *env) runConn(ctx *core.Ctx, cc *connCase) {
 		if sh := regressionShape(x); sh != "" {
 			ctx.Count("regression-shape/" + sh)
 		}
+		if x.ReasonKind != "" {
+			ctx.Count("reason/" + x.ReasonKind + map[bool]string{true: "/header-only-writer", false: "/Response.Write"}[x.headerOnly()])
+		}
 
 		if err := c.Send(x.requestBytes("origin.test"), nil); err != nil {
 			ctx.Disagree("client can send the next request on a kept-alive connection", one, err.Error(), "open")
@@ -401,9 +466,9 @@ func (e *env) runConn(ctx *core.Ctx, cc *connCase) {
 		}
 		res, rerr := c.ReadResponse(x.Method, 8*time.Second)
 		impl := describe(res, rerr)
-		if mr.Kind == "badgateway" {
+		if mr.Kind == "badgateway" || !mlineOK {
 			if res == nil || res.Status != 502 {
-				ctx.Disagree("malformed origin framing is answered with 502", one, impl, "502")
+				ctx.Disagree("malformed origin framing / status line is answered with 502", one, impl, "502")
 			}
 			// error responses keep the connection open unless asked otherwise; stop this connection here
 			return
@@ -416,8 +481,9 @@ func (e *env) runConn(ctx *core.Ctx, cc *connCase) {
 			if res.Status != mr.Status {
 				diffs = append(diffs, fmt.Sprintf("status %d want %d", res.Status, mr.Status))
 			}
-			if res.Reason != mr.Reason {
-				diffs = append(diffs, fmt.Sprintf("reason %q want %q", res.Reason, mr.Reason))
+			// the status line byte for byte (Model/RespStatus.lean: ReadResponse, then the writer that applies)
+			if got := statusLineOf(res.HeadBytes); got != mline {
+				diffs = append(diffs, fmt.Sprintf("status line %q want %q", got, mline))
 			}
 			if want := fmt.Sprintf("HTTP/1.%d", mr.Minor); res.Proto != want {
 				diffs = append(diffs, fmt.Sprintf("proto %q want %q", res.Proto, want))
@@ -513,8 +579,8 @@ func specViolations(rules []string, x *exchange, res *rig.Msg, rerr error) []vio
 	if res.Status != x.Status {
 		add("same status", "", fmt.Sprintf("%d vs %d", res.Status, x.Status))
 	}
-	if res.Reason != x.Reason {
-		add("same reason phrase", "", fmt.Sprintf("%q vs %q", res.Reason, x.Reason))
+	if got, want := statusLineOf(res.HeadBytes), x.wantStartLine(); got != want {
+		add("same status line: version, code and reason phrase", "", fmt.Sprintf("%q vs %q", got, want))
 	}
 	in := (&rig.Msg{Fields: x.Fields}).FieldMap()
 	out := res.FieldMap()
@@ -654,13 +720,25 @@ var shapes = []string{"ho-trailer", "gz-solicited", "gz-solicited", "http10-chun
 
 var bodyStatuses = []int{200, 200, 200, 201, 206, 404, 500, 503}
 
-func genExchange(r *core.Rand, last bool) *exchange {
+// forced pins the coordinates of an exchange that the status-line matrix walks; the rest stays random.
+type forced struct {
+	Method     string
+	Status     int
+	ReasonKind string
+}
+
+func genExchange(r *core.Rand, last bool) *exchange { return genExchangeF(r, last, forced{}) }
+
+func genExchangeF(r *core.Rand, last bool, fc forced) *exchange {
 	x := &exchange{ID: fmt.Sprintf("x%d-%x", idSeq.Add(1), r.U64()&0xffffff), ReqMinor: 1, Minor: 1, OriginKeep: true}
 	shape := ""
-	if r.Chance(16) {
+	if r.Chance(16) && fc == (forced{}) {
 		shape = core.Pick(r, shapes)
 	}
 	x.Method = core.Pick(r, []string{"GET", "GET", "GET", "HEAD", "POST"})
+	if fc.Method != "" {
+		x.Method = fc.Method
+	}
 	switch shape {
 	case "ho-trailer":
 		x.Method = core.Pick(r, []string{"HEAD", "GET", "POST"})
@@ -696,9 +774,18 @@ func genExchange(r *core.Rand, last bool) *exchange {
 	case "gz-solicited", "http10-chunked", "http10-gz":
 		x.Status = core.Pick(r, bodyStatuses)
 	}
+	if fc.Status != 0 {
+		x.Status = fc.Status
+	}
 	x.Reason = reasons[x.Status]
 	if r.Chance(15) {
 		x.Reason = core.Pick(r, []string{"Fine", "Custom Reason Phrase", "OK OK", "", "Weird-Reason_1"})
+	}
+	// the reason-phrase grammar: one exchange in four, and every exchange of the status-line matrix
+	if fc.ReasonKind != "" {
+		genReason(r, x, fc.ReasonKind)
+	} else if r.Chance(25) {
+		genReason(r, x, core.Pick(r, reasonKinds))
 	}
 	if r.Chance(8) && shape != "http10-chunked" && shape != "ho-trailer" || shape == "gz-solicited" && r.Chance(15) {
 		x.Minor = 0
@@ -835,6 +922,125 @@ func genExchange(r *core.Rand, last bool) *exchange {
 		}
 	}
 	return x
+}
+
+// ---- reason-phrase grammar ----
+//
+// RFC 7230: reason-phrase = *( HTAB / SP / VCHAR / obs-text ); the status line may also end after the code.
+// The phrase is what an application server chose to say, it is not drawn from the standard table:
+//
+//	standard        the registered phrase of the code
+//	empty           the blank after the code, then nothing
+//	bare            nothing after the code, not even the blank (written with the code repeated: the one
+//	                normalisation of the phrase, see wantStartLine)
+//	letter          custom, starts with a letter
+//	code-digit      starts with a digit that occurs in the status code ("204 2 rows deleted")
+//	other-digit     starts with a digit that does not occur in the code
+//	code-repeated   starts with the whole code and a blank ("404 404 page not found"), once or twice
+//	code-glued      starts with the whole code, no blank ("404page")
+//	digits-only     nothing but digits of the code ("200", "0", "44")
+//	blanks          starts with 1-3 blanks
+//	tabs            starts with a tab, or blanks and tabs
+//	trailing-blanks ends with blanks / a tab
+//	http-version    contains "HTTP/1.1" (starts with it, or mentions it)
+//	long            1-6 KiB
+//	obs-text        bytes >= 0x80 (ISO-8859-1, UTF-8, invalid UTF-8)
+//	mixed           1-12 random bytes over: the digits of the code, another digit, SP, HTAB, letters, '-', 0xE9
+//	code-blanks     standard phrase, but 1-3 extra blanks between the version and the code (dropped by the reader)
+var reasonKinds = []string{"standard", "empty", "bare", "letter", "code-digit", "other-digit", "code-repeated", "code-glued", "digits-only",
+	"blanks", "tabs", "trailing-blanks", "http-version", "long", "obs-text", "mixed", "code-blanks"}
+
+var reasonWords = []string{"rows deleted", "documents match", "page not found", "rd-party cache still valid", "th attempt failed", "OK", "x", "items; see log",
+	"Not Found", "I'm a teapot", "- done -", "(cached)"}
+
+func genReason(r *core.Rand, x *exchange, kind string) {
+	code := fmt.Sprint(x.Status)
+	words := core.Pick(r, reasonWords)
+	codeDigit := string(code[r.Intn(len(code))])
+	otherDigit := ""
+	for _, d := range "0123456789" {
+		if !strings.ContainsRune(code, d) && (otherDigit == "" || r.Chance(30)) {
+			otherDigit = string(d)
+		}
+	}
+	var p string
+	x.NoReasonSP, x.CodeBlanks, x.ReasonHex = false, 0, ""
+	switch kind {
+	case "standard":
+		p = reasons[x.Status]
+	case "empty":
+		p = ""
+	case "bare":
+		x.NoReasonSP = true
+	case "letter":
+		p = core.Pick(r, []string{"Fine", "Custom Reason Phrase", "OK OK", "Weird-Reason_1", "done", "Z"}) + core.Pick(r, []string{"", " " + words})
+	case "code-digit":
+		p = codeDigit + core.Pick(r, []string{" ", "", codeDigit + " ", "x "}) + words
+	case "other-digit":
+		p = otherDigit + core.Pick(r, []string{" ", "", otherDigit + " "}) + words
+	case "code-repeated":
+		p = code + " " + core.Pick(r, []string{"", code + " ", " "}) + words
+	case "code-glued":
+		p = code + core.Pick(r, []string{"page", "-" + words, code, "th"})
+	case "digits-only":
+		p = core.Pick(r, []string{code, codeDigit, codeDigit + codeDigit, code + code, codeDigit + " " + codeDigit})
+	case "blanks":
+		p = strings.Repeat(" ", r.Range(1, 3)) + core.Pick(r, []string{words, codeDigit + " " + words, ""})
+	case "tabs":
+		p = core.Pick(r, []string{"\t", " \t", "\t ", "\t\t"}) + core.Pick(r, []string{words, codeDigit + words, ""})
+	case "trailing-blanks":
+		p = core.Pick(r, []string{words, codeDigit + " " + words}) + core.Pick(r, []string{" ", "  ", "\t", " \t "})
+	case "http-version":
+		p = core.Pick(r, []string{"HTTP/1.1 200 OK", "HTTP/1.1", "see HTTP/1.1 " + code + " semantics", code + " HTTP/1.1 " + code + " " + words, "HTTP/1.0 " + words})
+	case "long":
+		n := core.Pick(r, []int{1000, 4000, 4096, 4097, 6000})
+		unit := core.Pick(r, []string{"long reason ", codeDigit, code + " ", "a"})
+		p = strings.Repeat(unit, n/len(unit)+1)[:n]
+	case "obs-text":
+		p = core.Pick(r, []string{"Pas trouv\xe9", "\xe9", "\xe2\x9c\x93 ok", "\xff\xfe", codeDigit + " \xc3\xa9l\xc3\xa9ments", "\x80" + words, "Nicht gefunden \xfc"})
+	case "mixed":
+		alpha := code + otherDigit + " \t aZ-\xe9"
+		n := r.Range(1, 12)
+		b := make([]byte, n)
+		for i := range b {
+			b[i] = alpha[r.Intn(len(alpha))]
+		}
+		p = string(b)
+	case "code-blanks":
+		p = reasons[x.Status]
+		x.CodeBlanks = r.Range(1, 3)
+	}
+	x.ReasonKind = kind
+	x.Reason = p
+	for i := 0; i < len(p); i++ {
+		if p[i] < 0x20 || p[i] >= 0x7f {
+			x.Reason, x.ReasonHex = "", core.Hex([]byte(p))
+			break
+		}
+	}
+}
+
+// reasonMatrix: every kind of the phrase grammar on every path the status line takes — the header-only
+// writer (HEAD with 2xx-5xx, 204, 304) and Response.Write (bodies with Content-Length, chunked,
+// close-delimited, every status class).
+func reasonMatrix(r *core.Rand) []*connCase {
+	targets := []forced{
+		{Method: "HEAD", Status: 200}, {Method: "HEAD", Status: 404}, {Method: "HEAD", Status: 301}, {Method: "HEAD", Status: 503},
+		{Method: "GET", Status: 204}, {Method: "POST", Status: 204}, {Method: "GET", Status: 304}, {Method: "HEAD", Status: 304},
+		{Method: "GET", Status: 200}, {Method: "POST", Status: 201}, {Method: "GET", Status: 302}, {Method: "GET", Status: 404},
+		{Method: "GET", Status: 500}, {Method: "GET", Status: 429}, {Method: "GET", Status: 599}, {Method: "HEAD", Status: 204},
+	}
+	// one exchange per connection (an exchange that ends the connection would hide the ones after it); the
+	// probe that follows every kept-alive exchange shows that the head was terminated where it should be
+	var out []*connCase
+	for _, k := range reasonKinds {
+		for _, t := range targets {
+			t.ReasonKind = k
+			out = append(out, &connCase{Kind: "conn", Mode: core.Pick(r, []string{"direct", "direct", "direct", "mitm"}), Rules: core.Pick(r, ruleSets),
+				Exchanges: []*exchange{genExchangeF(r, false, t)}})
+		}
+	}
+	return out
 }
 
 var ruleSets = [][]string{nil, nil, nil, {"X-Resp-Added: yes", "-Server", "X-Empty;"}, {"-x-c*", "%etag"}, {"-Warning", "Cache-Control: no-store"}}
